@@ -640,7 +640,7 @@ class Gen:
         return m
 
     def area_feature(self, name, spherical=False, kinds=("continental plate", "oceanic plate", "mantle layer"),
-                     centre=None, size=None, temp_allow=("uniform", "linear", "adiabatic", "chapman"), random_models=False):
+                     centre=None, size=None, temp_allow=("uniform", "linear", "adiabatic", "chapman"), random_models=False, depth_arrays=0.25):
         r = self.r
         kind = r.choice(kinds)
         if spherical:
@@ -662,6 +662,19 @@ class Gen:
             f["max depth"] = dmax
         else:
             dmax = 4e5
+        if depth_arrays and r.random() < depth_arrays:
+            # depths given as values at points (a value for the corners first, so that no corner is left at the DBL_MAX default)
+            poly = f["coordinates"]
+            if r.random() < 0.7:
+                ents = [[dmax]]
+                for _ in range(r.randint(1, 3)):
+                    ents.append([self.num(dmax * 0.6, dmax * 1.6, 0), [self.interior_point(poly) if r.random() < 0.75 else list(r.choice(poly)) for _k in range(r.randint(1, 2))]])
+                f["max depth"] = ents
+            if r.random() < 0.4:
+                ents = [[dmin]] if r.random() < 0.7 else []
+                for _ in range(r.randint(1, 2)):
+                    ents.append([self.num(0.0, dmax * 0.5, 0), [self.interior_point(poly) for _k in range(r.randint(1, 2))]])
+                f["min depth"] = ents
         f["temperature models"] = [self.temp_model(kind, dmin, dmax, temp_allow, centre=(cx, cy), spherical=spherical) for _ in range(r.choice([0, 1, 1, 2, 3]))]
         f["composition models"] = [self.comp_model(dmin, dmax) for _ in range(r.choice([0, 1, 1, 2, 3]))]
         if r.random() < 0.6:
